@@ -373,6 +373,17 @@ def convo_ref_client(ctx, rng, idx):
         peer.w.send(rc.MSG_REQUEST, 99999, (H["CLOSE"], (rc.LABEL_VALUE, ())))
         th.join(10)
         expect(not th.is_alive() and conn.closed, "close", "CLOSE request does not end the serving connection")
+    except vnet.Stalled:
+        # the reference client waits for the response to its last request. Verdict by state: the serving thread has consumed
+        # every byte sent to it and is parked waiting for more input, and no frame bearing that number was transmitted
+        last = peer.log[-1] if peer.log else None
+        frames, _ = net.frames("B->A")
+        answered = any(m["kind"] in (rc.MSG_REPLY, rc.MSG_EXCEPTION) and m["seq"] == peer.seq for m in frames)
+        if th.is_alive() and not answered and vnet.idle_in_poll(th, net.b):
+            bad.append(("request-not-answered/%s" % (last[1] if last else "?",), "a %s request of a peer speaking the published protocol is "
+                        "never answered: the serving side consumed it and went back to waiting for input" % (last[1] if last else "?",), {}))
+        else:
+            ctx.inconclusive("reference-client conversation stalled in a state that is not decisive (thread alive=%s answered=%s)" % (th.is_alive(), answered))
     except Exception as e:
         bad.append(("conversation-error/%s" % type(e).__name__, "conversation with the reference client broke: %r" % (e,), {}))
     finally:
